@@ -36,6 +36,7 @@ import (
 	"github.com/miekg/dns"
 	"github.com/semihalev/sdns/config"
 	"github.com/semihalev/sdns/internal/authority"
+	"github.com/semihalev/sdns/internal/dnsutil"
 	internalcache "github.com/semihalev/sdns/internal/cache"
 	"github.com/semihalev/sdns/middleware"
 )
@@ -51,6 +52,10 @@ type vC11GCaller struct {
 	class int // 0 answer, 1 own context error, 2 foreign request-local error, 3 other error, 9 still running
 	ekind int // 0 none, 1 DeadlineExceeded, 2 Canceled, 3 other
 	errs  string
+	// the error it ended with is one the middleware classes as request-local
+	// (middleware.IsRequestLocalResolutionError): only then does DNSHandler.handle mark the
+	// SERVFAIL it builds and the cache writer keep it out of the shared RFC 9520 failure state
+	local bool
 }
 
 type vC11GEvent struct {
@@ -290,6 +295,20 @@ func TestVerifC11Regroup(t *testing.T) {
 						cl.class, cl.errs = 3, "nil error without the answer"
 					default:
 						cl.errs = err.Error()
+						cl.local = middleware.IsRequestLocalResolutionError(err)
+						// which pool refused is read off what the error SAYS (the Extended DNS Error
+						// text the client gets), never off a sentinel's identity: a refusal that
+						// changes its Go value but not its meaning is still a refusal
+						var ede *dnsutil.EDEError
+						shed := 0
+						if errors.As(err, &ede) && ede.Code == dns.ExtendedErrorCodeNoReachableAuthority {
+							switch {
+							case strings.HasPrefix(ede.Message, "Zone ") && strings.Contains(ede.Message, "capacity"):
+								shed = 5
+							case strings.HasPrefix(ede.Message, "Resolver ") && strings.Contains(ede.Message, "capacity"):
+								shed = 4
+							}
+						}
 						switch {
 						case errors.Is(err, context.DeadlineExceeded):
 							cl.ekind = 1
@@ -299,8 +318,8 @@ func TestVerifC11Regroup(t *testing.T) {
 							cl.ekind = 3
 						}
 						switch {
-						case errors.Is(err, errZoneCapacity):
-							cl.class, cl.ekind = 5, 0
+						case shed != 0:
+							cl.class, cl.ekind = shed, 0
 						case errors.Is(err, middleware.ErrResolutionCapacity):
 							cl.class, cl.ekind = 4, 0
 						case own != nil && errors.Is(err, own):
@@ -352,12 +371,19 @@ func TestVerifC11Regroup(t *testing.T) {
 			cc = append(cc, fmt.Sprintf("mk_gcaller %d %d %d", cl.arrive, cl.end, cl.kind))
 			oc = append(oc, fmt.Sprintf("mk_gobs %d %d %d", cl.ret, cl.class, cl.ekind))
 			desc = append(desc, map[string]any{"i": i, "arrives": cl.arrive, "own_context_ends": cl.end, "by": []string{"", "deadline", "cancel"}[cl.kind],
-				"returned_at": cl.ret, "key": cl.key, "class": []string{"answer", "own-context-error", "FOREIGN-request-local-error", "other-error", "capacity-refused", "zone-capacity-refused", "", "", "", "still-running"}[cl.class], "error": cl.errs})
+				"returned_at": cl.ret, "key": cl.key, "request_local": cl.local, "class": []string{"answer", "own-context-error", "FOREIGN-request-local-error", "other-error", "capacity-refused", "zone-capacity-refused", "", "", "", "still-running"}[cl.class], "error": cl.errs})
 			if cl.class == 2 && goFail == "" {
 				goFail = fmt.Sprintf("caller %d (own context alive until %d ms) was failed at %d ms with another request's error: %s", i, cl.end, cl.ret, cl.errs)
 			}
 			if cl.class == 9 && goFail == "" {
 				goFail = fmt.Sprintf("caller %d was still in groupLookup 30 s after the last event", i)
+			}
+			// expired, cancelled or capacity-refused resolution must stay with that client: the
+			// handler marks the SERVFAIL request-local - and the cache keeps it out of the shared
+			// failure state - exactly when the middleware recognises the error as request-local
+			if (cl.class == 1 || cl.class == 4 || cl.class == 5) && !cl.local && goFail == "" {
+				goFail = fmt.Sprintf("caller %d ended with its own %s (%s) but middleware.IsRequestLocalResolutionError says it is not request-local: its SERVFAIL is published to the shared failure cache and served to other clients of the name",
+					i, []string{"", "context error", "", "", "capacity refusal", "zone-capacity refusal"}[cl.class], cl.errs)
 			}
 			if cl.class == 1 && (recoverAt < 0 || cl.end < recoverAt) {
 				failedLeaders++
